@@ -1,9 +1,11 @@
 //! Harness for C18 (server-info parsing and merging).  Decides nothing: renders the abstract
-//! parts / token streams of spec/srvinfo/*.tla as real datagrams, calls parse_response,
-//! Info*Response::parse, PartialServerInfo::merge / get_info, and projects the results back.
+//! parts / datagrams of spec/srvinfo/*.tla as real datagrams, calls parse_response,
+//! Info*Response::parse, Addr*Packed::unpack, PartialServerInfo::merge / get_info / take_info, and
+//! projects the results back into the vocabulary of the specification.
 //!
 //! vh-srvinfo merge            TLC transition export of MC_SrvInfo on stdin (direction A, merging)
-//! vh-srvinfo parse            TLC case export of SrvInfoParse on stdin (direction A, parsing)
+//! vh-srvinfo wire             TLC case export of MC_SrvInfoWire on stdin (direction A, byte-level parsing)
+//! vh-srvinfo parse            TLC case export of SrvInfoParse on stdin (direction A, token-level parsing)
 //! vh-srvinfo drive <seed> <tier> <prefix>   records traces with real-size infos (direction B)
 //! vh-srvinfo case <file>      re-executes one stored case
 use libtw2_serverbrowse::protocol as p;
@@ -14,8 +16,6 @@ use vh_common::rand::rngs::StdRng;
 use vh_common::rand::seq::SliceRandom;
 use vh_common::rand::{Rng, SeedableRng};
 use vh_common::{canon, catch, parse_tlc_tuple, quiet_panics, set_case, start_watchdog};
-
-const TOKEN: i32 = 7;
 
 fn push_str(out: &mut Vec<u8>, s: &str) {
     out.extend_from_slice(s.as_bytes());
@@ -29,21 +29,97 @@ fn ids(v: &Value) -> Vec<i64> {
     v.as_array().map(|a| a.iter().map(|x| x.as_i64().unwrap_or(0)).collect()).unwrap_or_default()
 }
 
-/// the datagram of part `pidx` (1-based) of an instance {v, n, parts:[{bits, cl, main}]}
-/// (bits are exported 1-based)
-fn render_part(inst: &Value, pidx: usize) -> Vec<u8> {
-    let part = &inst["parts"][pidx - 1];
-    let n = inst["n"].as_i64().unwrap_or(0);
-    let bits = ids(&part["bits"]);
-    let cl = ids(&part["cl"]);
-    let v = inst["v"].as_str().unwrap_or("");
+// ---------------------------------------------------------------- client records and their rendering
+
+/// how the strings of a record are put on the wire: short names, names / clans of exactly the
+/// maximal length, over-long ones (the library cuts them), multi-byte characters across the cut
+#[derive(Clone, Copy, PartialEq, Debug)]
+enum Style {
+    Short,
+    Long,
+    Over,
+    Utf8,
+}
+const STYLES: [Style; 4] = [Style::Short, Style::Long, Style::Over, Style::Utf8];
+
+fn style_of(v: &Value) -> Style {
+    match v.as_str().unwrap_or("short") {
+        "long" => Style::Long,
+        "over" => Style::Over,
+        "utf8" => Style::Utf8,
+        _ => Style::Short,
+    }
+}
+fn style_name(s: Style) -> &'static str {
+    match s {
+        Style::Short => "short",
+        Style::Long => "long",
+        Style::Over => "over",
+        Style::Utf8 => "utf8",
+    }
+}
+
+/// (wire names, names as handed out, wire clans, clans as handed out); index 0 sorts before index 1
+fn strings(s: Style) -> ([&'static str; 2], [&'static str; 2], [&'static str; 2], [&'static str; 2]) {
+    match s {
+        Style::Short => (["(connecting)", "nameless tee"], ["(connecting)", "nameless tee"], ["", "clan"], ["", "clan"]),
+        Style::Long => (
+            ["nameless tee 00", "nameless tee 01"],
+            ["nameless tee 00", "nameless tee 01"],
+            ["clan-clan-0", "clan-clan-1"],
+            ["clan-clan-0", "clan-clan-1"],
+        ),
+        Style::Over => (
+            ["abcdefghijklmn0-overlong", "abcdefghijklmn1-overlong"],
+            ["abcdefghijklmn0", "abcdefghijklmn1"],
+            ["clan-clan-0xyz", "clan-clan-1xyz"],
+            ["clan-clan-0", "clan-clan-1"],
+        ),
+        Style::Utf8 => (
+            ["aaaaaaaaaaaaa0\u{e4}", "aaaaaaaaaaaaa1\u{e4}"],
+            ["aaaaaaaaaaaaa0", "aaaaaaaaaaaaa1"],
+            ["a\u{43a}\u{43a}\u{43a}\u{43a}\u{43a}", "b\u{43a}\u{43a}\u{43a}\u{43a}\u{43a}\u{43a}"],
+            ["a\u{43a}\u{43a}\u{43a}\u{43a}\u{43a}", "b\u{43a}\u{43a}\u{43a}\u{43a}\u{43a}"],
+        ),
+    }
+}
+
+/// SrvInfo!KeyOf: the fields of record id r are bits of r - 1 (duplicates in every field):
+/// (wire name, wire clan, country, score, flags)
+fn rec_fields(s: Style, r: i64) -> (&'static str, &'static str, i64, i64, i64) {
+    let k = (r - 1).rem_euclid(64);
+    let (wn, _, wc, _) = strings(s);
+    (wn[(k & 1) as usize], wc[(k >> 1 & 1) as usize], (k >> 2 & 1) - 1, (k >> 3 & 1) + 2 * (k >> 5 & 1), k >> 4 & 1)
+}
+
+/// the record id a returned client stands for (-1: no record of the model has these fields)
+fn rec_of(s: Style, name: &str, clan: &str, country: i64, score: i64, flags: i64) -> i64 {
+    let (_, n, _, c) = strings(s);
+    let b0 = n.iter().position(|x| *x == name);
+    let b1 = c.iter().position(|x| *x == clan);
+    match (b0, b1) {
+        (Some(b0), Some(b1)) if (-1..=0).contains(&country) && (0..=3).contains(&score) && (0..=1).contains(&flags) => {
+            1 + b0 as i64 + 2 * b1 as i64 + 4 * (country + 1) + 8 * (score & 1) + 32 * (score >> 1) + 16 * flags
+        }
+        _ => -1,
+    }
+}
+
+/// the datagram of a part {srv, v, tok, main, n, off, cl, recs}
+fn render_part(part: &Value, style: Style) -> Vec<u8> {
+    let n = part["n"].as_i64().unwrap_or(0);
+    let off = part["off"].as_i64().unwrap_or(0);
+    let tok = part["tok"].as_i64().unwrap_or(0);
+    let srv = part["srv"].as_i64().unwrap_or(0);
+    let recs = ids(&part["recs"]);
+    let ex = part["v"] == "v6ex";
+    let name = format!("verif server {}", srv);
     let mut d = Vec::new();
-    let ex = v == "v6ex";
     if !ex {
         d.extend_from_slice(p::INFO_6_64);
-        push_int(&mut d, TOKEN as i64);
+        push_int(&mut d, tok);
         push_str(&mut d, "0.6.4, 11.0");
-        push_str(&mut d, "verif server");
+        push_str(&mut d, &name);
         push_str(&mut d, "dm1");
         push_str(&mut d, "DM");
         push_int(&mut d, 0);
@@ -51,13 +127,12 @@ fn render_part(inst: &Value, pidx: usize) -> Vec<u8> {
         push_int(&mut d, 64);
         push_int(&mut d, n);
         push_int(&mut d, 64);
-        // offset = slot of the first client of this packet
-        push_int(&mut d, bits.first().map(|b| b - 1).unwrap_or(n.min(63)));
+        push_int(&mut d, off);
     } else if part["main"].as_bool().unwrap_or(false) {
         d.extend_from_slice(p::INFO_6_EX);
-        push_int(&mut d, TOKEN as i64);
+        push_int(&mut d, tok);
         push_str(&mut d, "0.6.4, 11.0");
-        push_str(&mut d, "verif server");
+        push_str(&mut d, &name);
         push_str(&mut d, "dm1");
         push_int(&mut d, 123456);
         push_int(&mut d, 5805);
@@ -70,12 +145,12 @@ fn render_part(inst: &Value, pidx: usize) -> Vec<u8> {
         push_str(&mut d, "");
     } else {
         d.extend_from_slice(p::INFO_6_EX_MORE);
-        push_int(&mut d, TOKEN as i64);
-        push_int(&mut d, bits.first().map(|b| b - 1).unwrap_or(1));
+        push_int(&mut d, tok);
+        push_int(&mut d, off);
         push_str(&mut d, "");
     }
-    for c in cl {
-        let (name, clan, country, score, flags) = client_fields(c);
+    for r in recs {
+        let (name, clan, country, score, flags) = rec_fields(style, r);
         push_str(&mut d, name);
         push_str(&mut d, clan);
         push_int(&mut d, country);
@@ -88,33 +163,6 @@ fn render_part(inst: &Value, pidx: usize) -> Vec<u8> {
     d
 }
 
-const NAMES: [&str; 2] = ["(connecting)", "nameless tee"];
-const CLANS: [&str; 2] = ["", "clan"];
-
-/// SrvInfo!KeyOf: the fields of client id c are bits of c - 1 (duplicates in every field)
-fn client_fields(c: i64) -> (&'static str, &'static str, i64, i64, i64) {
-    let k = c - 1;
-    (
-        NAMES[(k & 1) as usize],
-        CLANS[(k >> 1 & 1) as usize],
-        (k >> 2 & 1) - 1,
-        (k >> 3 & 1) + 2 * (k >> 5 & 1),
-        k >> 4 & 1,
-    )
-}
-
-/// the client id a returned record stands for (-1: no client of the model has these fields)
-fn client_id_of(name: &str, clan: &str, country: i64, score: i64, flags: i64) -> i64 {
-    let b0 = NAMES.iter().position(|n| *n == name);
-    let b1 = CLANS.iter().position(|n| *n == clan);
-    match (b0, b1) {
-        (Some(b0), Some(b1)) if (-1..=0).contains(&country) && (0..=3).contains(&score) && (0..=1).contains(&flags) => {
-            1 + b0 as i64 + 2 * b1 as i64 + 4 * (country + 1) + 8 * (score & 1) + 32 * (score >> 1) + 16 * flags
-        }
-        _ => -1,
-    }
-}
-
 fn parse_partial(d: &[u8]) -> Result<Option<p::PartialServerInfo>, String> {
     catch(|| match p::parse_response(d) {
         Some(p::Response::Info664(x)) => x.parse(),
@@ -124,32 +172,49 @@ fn parse_partial(d: &[u8]) -> Result<Option<p::PartialServerInfo>, String> {
     })
 }
 
-fn ids_of(info: &p::ServerInfo) -> Vec<i64> {
-    info.clients
-        .iter()
-        .map(|c| client_id_of(&c.name, &c.clan, c.country as i64, c.score as i64, c.flags as i64))
-        .collect()
+fn recs_of(info: &p::ServerInfo, s: Style) -> Vec<i64> {
+    info.clients.iter().map(|c| rec_of(s, &c.name, &c.clan, c.country as i64, c.score as i64, c.flags as i64)).collect()
 }
 
-/// what the caller can observe: {complete, clients = the ids *in the order returned*}; take_info on
-/// a clone must hand out the same sequence (else the projection appends -2, which no spec value has)
-fn observe(x: &mut p::PartialServerInfo) -> Value {
-    let got = x.get_info().map(|info| ids_of(info));
-    match got {
-        Some(mut c) => {
-            let taken = x.clone().take_info().map(|i| ids_of(&i));
-            if taken.as_ref() != Some(&c) {
-                c.push(-2);
-            }
-            json!({"complete": true, "clients": c})
-        }
-        None => json!({"complete": false, "clients": []}),
+fn srv_of(info: &p::ServerInfo) -> i64 {
+    if info.name.is_empty() {
+        0
+    } else {
+        info.name.strip_prefix("verif server ").and_then(|x| x.parse().ok()).unwrap_or(-1)
     }
 }
 
-/// strict projection through the derived Debug image: (received mask bits 1-based, sorted client ids);
+fn obs_info(info: &p::ServerInfo, s: Style) -> Value {
+    json!({"complete": true, "clients": recs_of(info, s), "srv": srv_of(info), "n": info.num_clients})
+}
+fn obs_none() -> Value {
+    json!({"complete": false, "clients": [], "srv": 0, "n": 0})
+}
+
+/// what the caller can observe: get_info on the partial itself (which sorts it in place);
+/// take_info on a clone must hand out the same (else the projection appends -2, which no spec value has)
+fn observe(x: &mut p::PartialServerInfo, s: Style) -> Value {
+    let got = x.get_info().map(|info| obs_info(info, s));
+    match got {
+        Some(mut o) => {
+            let taken = x.clone().take_info().map(|i| obs_info(&i, s));
+            if taken.as_ref() != Some(&o) {
+                o["clients"].as_array_mut().unwrap().push(json!(-2));
+            }
+            o
+        }
+        None => obs_none(),
+    }
+}
+/// the same observation without touching the partial
+fn observe_quiet(x: &p::PartialServerInfo, s: Style) -> Value {
+    let mut c = x.clone();
+    c.get_info().map(|info| obs_info(info, s)).unwrap_or_else(obs_none)
+}
+
+/// strict projection through the derived Debug image: (received mask bits 1-based, sorted record ids);
 /// None if the image cannot be read (then only the observable result is compared)
-fn strict(x: &p::PartialServerInfo) -> Option<(Vec<i64>, Vec<i64>)> {
+fn strict(x: &p::PartialServerInfo, st: Style) -> Option<(Vec<i64>, Vec<i64>)> {
     let s = format!("{:?}", x);
     let idx = s.rfind("received: ")?;
     let num: String = s[idx + 10..].chars().take_while(|c| c.is_ascii_digit()).collect();
@@ -171,7 +236,7 @@ fn strict(x: &p::PartialServerInfo) -> Option<(Vec<i64>, Vec<i64>)> {
             if rest.len() != 3 {
                 return None;
             }
-            cls.push(client_id_of(name, clan, rest[0].parse().ok()?, rest[1].parse().ok()?, rest[2].parse().ok()?));
+            cls.push(rec_of(st, name, clan, rest[0].parse().ok()?, rest[1].parse().ok()?, rest[2].parse().ok()?));
         }
     }
     cls.sort();
@@ -181,55 +246,97 @@ fn strict(x: &p::PartialServerInfo) -> Option<(Vec<i64>, Vec<i64>)> {
 struct Applied {
     res: String,
     obs: Value,
+    obsq: Value,
+    same: bool,
     strict: Option<(Vec<i64>, Vec<i64>)>,
 }
 
-/// applies act to the real pool; None = the call panicked
-fn apply(inst: &Value, pool: &mut Vec<p::PartialServerInfo>, act: &Value) -> Result<Applied, String> {
+/// two pools with the same history: on `a` get_info is called after every step (it sorts in
+/// place), on `q` never (observations through clones)
+#[derive(Clone, Default)]
+struct Pools {
+    a: Vec<p::PartialServerInfo>,
+    q: Vec<p::PartialServerInfo>,
+}
+
+fn merge_res(r: &Result<(), p::MergeError>) -> String {
+    match r {
+        Ok(()) => "ok".to_string(),
+        Err(p::MergeError::OverlappingInfos) => "overlap".to_string(),
+        Err(p::MergeError::DifferingTokens) => "tokens".to_string(),
+        Err(p::MergeError::DifferingVersions) => "versions".to_string(),
+        Err(p::MergeError::NotMultipartVersion) => "notmulti".to_string(),
+    }
+}
+
+/// applies act to the real pools; Err = the call panicked
+fn apply(inst: &Value, pools: &mut Pools, act: &Value, style: Style) -> Result<Applied, String> {
     match act["a"].as_str().unwrap_or("") {
         "parse" => {
-            let d = render_part(inst, act["p"].as_u64().unwrap_or(1) as usize);
+            let pi = act["p"].as_u64().unwrap_or(1) as usize;
+            let d = render_part(&inst["parts"][pi - 1], style);
             match parse_partial(&d)? {
                 Some(x) => {
-                    pool.push(x);
-                    let s = strict(pool.last().unwrap());
-                    Ok(Applied { res: "ok".into(), obs: json!(null), strict: s })
+                    pools.q.push(x.clone());
+                    pools.a.push(x);
+                    let s = strict(pools.a.last().unwrap(), style);
+                    Ok(Applied { res: "ok".into(), obs: json!(null), obsq: json!(null), same: true, strict: s })
                 }
-                None => Ok(Applied { res: "none".into(), obs: json!(null), strict: None }),
+                None => Ok(Applied { res: "none".into(), obs: json!(null), obsq: json!(null), same: true, strict: None }),
             }
         }
         "merge" => {
             let i = act["i"].as_u64().unwrap_or(1) as usize - 1;
             let j = act["j"].as_u64().unwrap_or(1) as usize - 1;
-            let other = pool[j].clone();
-            let r = catch(|| pool[i].merge(other))?;
-            let res = match r {
-                Ok(()) => "ok".to_string(),
-                Err(p::MergeError::OverlappingInfos) => "overlap".to_string(),
-                Err(e) => format!("err:{:?}", e),
-            };
-            let obs = catch(|| observe(&mut pool[i]))?;
-            let s = strict(&pool[i]);
-            pool.remove(j);
-            Ok(Applied { res, obs, strict: s })
+            if i >= pools.a.len() || j >= pools.a.len() || i == j {
+                return Err("harness: merge index outside the pool".into());
+            }
+            let other = pools.a[j].clone();
+            let before = format!("{:?}", pools.a[i]);
+            let r = catch(|| pools.a[i].merge(other))?;
+            let res = merge_res(&r);
+            let mut same = r.is_ok() || format!("{:?}", pools.a[i]) == before;
+            let obs = catch(|| observe(&mut pools.a[i], style))?;
+            let s = strict(&pools.a[i], style);
+            let otherq = pools.q[j].clone();
+            let rq = catch(|| pools.q[i].merge(otherq))?;
+            if merge_res(&rq) != res {
+                same = false;
+            }
+            let obsq = catch(|| observe_quiet(&pools.q[i], style))?;
+            pools.a.remove(j);
+            pools.q.remove(j);
+            Ok(Applied { res, obs, obsq, same, strict: s })
+        }
+        "take" => {
+            let i = act["i"].as_u64().unwrap_or(1) as usize - 1;
+            if i >= pools.a.len() {
+                return Err("harness: take index outside the pool".into());
+            }
+            let r = catch(|| pools.a[i].take_info())?;
+            let obs = r.as_ref().map(|x| obs_info(x, style)).unwrap_or_else(obs_none);
+            let rq = catch(|| pools.q[i].take_info())?;
+            let obsq = rq.as_ref().map(|x| obs_info(x, style)).unwrap_or_else(obs_none);
+            let s = strict(&pools.a[i], style);
+            Ok(Applied { res: if r.is_some() { "some".into() } else { "none".into() }, obs, obsq, same: true, strict: s })
         }
         _ => Err("harness: unknown act".into()),
     }
 }
 
-fn shape(inst: &Value, act: &Value) -> String {
-    format!(
-        "{}:{}-for-{}",
-        inst["v"].as_str().unwrap_or("?"),
-        act["br"].as_str().unwrap_or("?"),
-        act["bx"].as_str().unwrap_or("?")
-    )
+fn shape(act: &Value) -> String {
+    if act["a"] == "take" {
+        return format!("{}:take", act["v"].as_str().unwrap_or("?"));
+    }
+    format!("{}:{}-for-{}", act["v"].as_str().unwrap_or("?"), act["br"].as_str().unwrap_or("?"), act["bx"].as_str().unwrap_or("?"))
 }
 
 fn merge_replay() {
     let stdin = std::io::stdin();
-    let mut reps: HashMap<String, (Vec<p::PartialServerInfo>, Vec<Value>)> = HashMap::new();
-    let (mut edges, mut orphans, mut nmerge, mut nparse, mut strict_cmp, mut strict_diff) = (0u64, 0u64, 0u64, 0u64, 0u64, 0u64);
+    let mut reps: HashMap<String, (Pools, Vec<Value>)> = HashMap::new();
+    let mut styles: HashMap<String, Style> = HashMap::new();
+    let (mut edges, mut orphans, mut nmerge, mut nparse, mut ntake, mut strict_cmp, mut strict_diff) = (0u64, 0u64, 0u64, 0u64, 0u64, 0u64, 0u64);
+    let (mut judged_n, mut errors_n) = (0u64, 0u64);
     let mut known: HashMap<String, (u64, Value)> = HashMap::new();
     let mut fixedlike: HashMap<String, (u64, Value)> = HashMap::new();
     let mut other: HashMap<String, (u64, Value)> = HashMap::new();
@@ -260,9 +367,12 @@ fn merge_replay() {
         to["inst"] = from["inst"].clone();
         edges += 1;
         let inst = &from["inst"];
+        let ik = canon(inst);
+        let nstyles = styles.len();
+        let style = *styles.entry(ik).or_insert(STYLES[nstyles % 4]);
         let fk = canon(&from);
-        let (mut pool, mut hist) = if from["pool"].as_array().map(|a| a.is_empty()).unwrap_or(true) {
-            (Vec::new(), Vec::new())
+        let (mut pools, mut hist) = if from["pool"].as_array().map(|a| a.is_empty()).unwrap_or(true) {
+            (Pools::default(), Vec::new())
         } else {
             match reps.get(&fk) {
                 Some(r) => r.clone(),
@@ -273,69 +383,91 @@ fn merge_replay() {
             }
         };
         hist.push(json!({"a": act["a"], "p": act["p"], "i": act["i"], "j": act["j"]}));
-        let replay = json!({"kind": "merge", "from": {"inst": from["inst"]}, "history": hist, "act": act});
+        let replay = json!({"kind": "merge", "from": {"inst": from["inst"], "style": style_name(style)}, "history": hist, "act": act});
         set_case(&replay.to_string());
-        let is_merge = act["a"] == "merge";
-        let applied = apply(inst, &mut pool, &act);
+        let kind = act["a"].as_str().unwrap_or("").to_string();
+        let applied = apply(inst, &mut pools, &act, style);
         let applied = match applied {
             Ok(a) => a,
             Err(msg) => {
-                let k = format!("panic:merge:{}", shape(inst, &act));
+                let k = format!("panic:{}:{}", kind, shape(&act));
                 other.entry(k).or_insert((0, json!({"replay": replay, "why": format!("panic: {}", msg)}))).0 += 1;
                 continue;
             }
         };
         let mut matches_detailed = true;
-        if is_merge {
-            nmerge += 1;
+        if kind == "merge" || kind == "take" {
+            if kind == "merge" {
+                nmerge += 1;
+            } else {
+                ntake += 1;
+            }
+            let judged = act["judged"] == true;
+            if judged {
+                judged_n += 1;
+            }
+            if kind == "merge" && applied.res != "ok" {
+                errors_n += 1;
+            }
             if act["obs"]["clients"].as_array().map(|a| a.len() >= 2).unwrap_or(false) {
                 nontrivial += 1;
             }
             let want_d = canon(&act["obs"]);
             let want_p = canon(&act["prop"]);
             let got = canon(&applied.obs);
-            let prop_ok = got == want_p && (applied.res == "ok" || (applied.res == "overlap" && act["propres"].as_bool() == Some(true) && act["res"] == "overlap"));
+            let gotq = canon(&applied.obsq);
+            let want_res = if kind == "merge" { act["res"].as_str().unwrap_or("").to_string() } else { applied.res.clone() };
             // the property-level acceptance of the result value itself
-            let res_legal = applied.res == "ok" || (applied.res == "overlap" && act["res"] == "overlap" && act["propres"] == true);
-            if got == want_d && applied.res == act["res"].as_str().unwrap_or("") {
-                let model_prop_ok = want_d == want_p && act["propres"] == true;
+            let res_legal = kind == "take" || applied.res == "ok" || (applied.res == "overlap" && act["res"] == "overlap" && act["propres"] == true);
+            let prop_ok = !judged || (got == want_p && gotq == want_p && res_legal);
+            if got == want_d && gotq == want_d && applied.res == want_res && applied.same {
+                let model_prop_ok = !judged || (want_d == want_p && act["propres"] != false);
                 if !model_prop_ok {
                     // the code does what the detailed model (with the known-bug action) says, and
                     // that is not what the property-level spec allows
-                    let k = if act["known"] == true { shape(inst, &act) } else { format!("{}:after-stale-mask", inst["v"].as_str().unwrap_or("?")) };
+                    let k = if act["known"] == true { shape(&act) } else { format!("{}:after-stale-mask", act["v"].as_str().unwrap_or("?")) };
                     let e = known.entry(k).or_insert((0, json!({"replay": replay, "got": applied.obs, "prop": act["prop"], "bugs": act["bugs"]})));
                     e.0 += 1;
-                    if act["bugs"].as_i64().unwrap_or(0) == 0 {
+                    if kind == "merge" && act["bugs"].as_i64().unwrap_or(0) == 0 {
                         // cannot happen if TLC's OnlyKnownBug holds; keep it visible
                         other.entry("unexplained-model-violation".into()).or_insert((0, json!({"replay": replay}))).0 += 1;
                     }
                 }
             } else {
                 matches_detailed = false;
-                if prop_ok && res_legal {
-                    fixedlike.entry(shape(inst, &act)).or_insert((0, json!({"replay": replay, "got": applied.obs, "res": applied.res}))).0 += 1;
+                let what = if !applied.same && applied.res == want_res { "partial-changed-by-error:" } else { "" };
+                if prop_ok {
+                    fixedlike.entry(format!("{}{}:{}", what, shape(&act), applied.res)).or_insert((0, json!({"replay": replay, "got": applied.obs, "gotq": applied.obsq, "res": applied.res, "want": act["obs"]}))).0 += 1;
                 } else {
-                    let k = format!("merge-deviates:{}:{}", shape(inst, &act), applied.res);
-                    other.entry(k).or_insert((0, json!({"replay": replay, "got": applied.obs, "res": applied.res, "want": act["obs"], "prop": act["prop"]}))).0 += 1;
+                    let k = format!("merge-deviates:{}:{}", shape(&act), applied.res);
+                    other.entry(k).or_insert((0, json!({"replay": replay, "got": applied.obs, "gotq": applied.obsq, "res": applied.res, "want": act["obs"], "prop": act["prop"]}))).0 += 1;
                 }
             }
             if samples.len() < 3 && act["obs"]["complete"] == true && act["obs"]["clients"].as_array().map(|a| a.len() >= 3).unwrap_or(false) {
-                samples.push(json!({"inst": inst["v"], "n": inst["n"], "act": {"i": act["i"], "j": act["j"], "br": act["br"]}, "observed": applied.obs}));
+                samples.push(json!({"style": style_name(style), "act": {"a": act["a"], "i": act["i"], "j": act["j"], "br": act["br"]}, "observed": applied.obs}));
             }
         } else {
             nparse += 1;
-            if applied.res != "ok" {
+            let want = act["res"].as_str().unwrap_or("ok");
+            if applied.res != want {
                 matches_detailed = false;
-                other.entry(format!("parse-rejected-valid-part:{}", inst["v"].as_str().unwrap_or("?")))
-                    .or_insert((0, json!({"replay": replay}))).0 += 1;
+                let part = &inst["parts"][act["p"].as_u64().unwrap_or(1) as usize - 1];
+                let v = part["v"].as_str().unwrap_or("?");
+                if want == "ok" && part["wf"] == true {
+                    other.entry(format!("parse-rejected-valid-part:{}", v)).or_insert((0, json!({"replay": replay}))).0 += 1;
+                } else {
+                    fixedlike.entry(format!("parse-of-part:{}:{}", v, applied.res)).or_insert((0, json!({"replay": replay, "res": applied.res}))).0 += 1;
+                }
             }
         }
         // strict projection of the touched partial against the spec state
-        if matches_detailed {
+        if matches_detailed && (kind != "parse" || applied.res == "ok") {
             let tpool = to["pool"].as_array().cloned().unwrap_or_default();
-            let ti = if is_merge {
+            let ti = if kind == "merge" {
                 let (i, j) = (act["i"].as_u64().unwrap_or(1) as usize, act["j"].as_u64().unwrap_or(1) as usize);
                 if j < i { i - 2 } else { i - 1 }
+            } else if kind == "take" {
+                act["i"].as_u64().unwrap_or(1) as usize - 1
             } else {
                 tpool.len().saturating_sub(1)
             };
@@ -344,12 +476,12 @@ fn merge_replay() {
                 if *bits != ids(&tp["rcv"]) || *cls != ids(&tp["cls"]) {
                     // internal state differs, observable result agrees: drift; exploration goes on
                     strict_diff += 1;
-                    fixedlike.entry(format!("strict:{}", shape(inst, &act))).or_insert((0, json!({"replay": replay, "bits": bits, "cls": cls, "want": tp}))).0 += 1;
+                    fixedlike.entry(format!("strict:{}", shape(&act))).or_insert((0, json!({"replay": replay, "bits": bits, "cls": cls, "want": tp}))).0 += 1;
                 }
             }
         }
         if matches_detailed {
-            reps.entry(canon(&to)).or_insert((pool, hist));
+            reps.entry(canon(&to)).or_insert((pools, hist));
         }
     }
     let conv = |m: HashMap<String, (u64, Value)>| -> Value {
@@ -359,13 +491,230 @@ fn merge_replay() {
     };
     println!(
         "{}",
-        json!({"summary": true, "edges": edges, "merges": nmerge, "parses": nparse, "states": reps.len(), "orphans": orphans,
+        json!({"summary": true, "edges": edges, "merges": nmerge, "parses": nparse, "takes": ntake, "judged": judged_n, "error_results": errors_n,
+               "instances": styles.len(), "states": reps.len(), "orphans": orphans,
                "strict_compared": strict_cmp, "strict_diff": strict_diff, "nontrivial": nontrivial,
                "known": conv(known), "fixedlike": conv(fixedlike), "other": conv(other), "samples": samples, "tlc_tail": tlc_tail})
     );
 }
 
-// ---------------------------------------------------------------- parsing half
+// ---------------------------------------------------------------- byte-level parsing (SrvInfoWire)
+
+fn bytes_of(s: &str) -> Value {
+    Value::Array(s.as_bytes().iter().map(|b| json!(*b)).collect())
+}
+fn client_value(c: &p::ClientInfo) -> Value {
+    json!({"name": bytes_of(&c.name), "clan": bytes_of(&c.clan), "country": c.country, "score": c.score, "flags": c.flags})
+}
+fn version_name(v: p::ServerInfoVersion) -> &'static str {
+    match v {
+        p::ServerInfoVersion::V5 => "v5",
+        p::ServerInfoVersion::V6 => "v6",
+        p::ServerInfoVersion::V6Ddper => "v6ddper",
+        p::ServerInfoVersion::V664 => "v664",
+        p::ServerInfoVersion::V6Ex => "v6ex",
+        p::ServerInfoVersion::V7 => "v7",
+    }
+}
+fn opt<T: Into<Value>>(x: Option<T>) -> Value {
+    match x {
+        Some(v) => json!([v.into()]),
+        None => json!([]),
+    }
+}
+/// the whole value of a ServerInfo in the vocabulary of SrvInfoWire!ParseInfo
+fn info_value(i: &p::ServerInfo) -> Value {
+    json!({"ver": version_name(i.info_version), "token": i.token, "version": bytes_of(&i.version), "name": bytes_of(&i.name),
+           "hostname": opt(i.hostname.as_ref().map(|h| bytes_of(h))), "map": bytes_of(&i.map),
+           "crc": opt(i.map_crc.map(|c| c as i32)), "msize": opt(i.map_size.map(|c| c as i64)),
+           "gametype": bytes_of(&i.game_type), "flags": i.flags, "prog": opt(i.progression), "skill": opt(i.skill_level),
+           "np": i.num_players, "mp": i.max_players, "nc": i.num_clients, "mc": i.max_clients,
+           "clients": Value::Array(i.clients.iter().map(client_value).collect())})
+}
+fn whole(x: Option<p::ServerInfo>) -> Value {
+    match x {
+        None => json!({"some": false}),
+        Some(i) => json!({"some": true, "partial": false, "complete": true, "full": info_value(&i)}),
+    }
+}
+fn partial(x: Option<p::PartialServerInfo>) -> Value {
+    match x {
+        None => json!({"some": false}),
+        Some(mut pi) => {
+            let s = format!("{:?}", pi);
+            let mask = s.rfind("received: ").and_then(|i| {
+                let num: String = s[i + 10..].chars().take_while(|c| c.is_ascii_digit()).collect();
+                num.parse::<u64>().ok()
+            });
+            let token = pi.token();
+            let full = pi.get_info().map(info_value);
+            // take_info must hand out the same info and leave an emptied partial behind
+            let taken = pi.clone().take_info().map(|i| info_value(&i));
+            let mut again = pi.clone();
+            let _ = again.take_info();
+            let _ = again.take_info();
+            let _ = again.get_info();
+            json!({"some": true, "partial": true, "token": token, "complete": full.is_some(), "full": full,
+                   "take_same": taken == full, "mask": mask})
+        }
+    }
+}
+fn addr_value(a: p::Addr) -> Value {
+    match a.ip_address {
+        std::net::IpAddr::V4(x) => json!({"v6": false, "ip": x.octets().to_vec(), "port": a.port}),
+        std::net::IpAddr::V6(x) => json!({"v6": true, "ip": x.octets().to_vec(), "port": a.port}),
+    }
+}
+fn tok(t: p::Token7) -> Value {
+    json!(t.0.to_vec())
+}
+
+/// the whole value parse_response and the accessors give for a datagram
+fn wire_value(d: &[u8]) -> Result<Value, String> {
+    catch(|| match p::parse_response(d) {
+        None => json!({"kind": "none"}),
+        Some(p::Response::List5(l)) => json!({"kind": "list5", "own": [], "their": [], "count": -1, "addrs": l.0.iter().map(|a| addr_value(a.unpack())).collect::<Vec<_>>()}),
+        Some(p::Response::List6(l)) => json!({"kind": "list6", "own": [], "their": [], "count": -1, "addrs": l.0.iter().map(|a| addr_value(a.unpack())).collect::<Vec<_>>()}),
+        Some(p::Response::List7(l)) => json!({"kind": "list7", "own": tok(l.0), "their": tok(l.1), "count": -1, "addrs": l.2.iter().map(|a| addr_value(a.unpack())).collect::<Vec<_>>()}),
+        Some(p::Response::Count(c)) => json!({"kind": "count", "own": [], "their": [], "count": c.0, "addrs": []}),
+        Some(p::Response::Count7(c)) => json!({"kind": "count7", "own": tok(c.0), "their": tok(c.1), "count": c.2, "addrs": []}),
+        Some(p::Response::Token7(t)) => json!({"kind": "token7", "own": tok(t.0), "their": tok(t.1), "count": -1, "addrs": []}),
+        Some(p::Response::Info5(x)) => json!({"kind": "info5", "own": [], "their": [], "count": -1, "addrs": [], "info": whole(x.parse())}),
+        Some(p::Response::Info6(x)) => json!({"kind": "info6", "own": [], "their": [], "count": -1, "addrs": [], "info": whole(x.parse())}),
+        Some(p::Response::Info6Ddper(x)) => json!({"kind": "info6ddper", "own": [], "their": [], "count": -1, "addrs": [], "info": whole(x.parse())}),
+        Some(p::Response::Info7(x)) => json!({"kind": "info7", "own": tok(x.0), "their": tok(x.1), "count": -1, "addrs": [], "info": whole(x.parse())}),
+        Some(p::Response::Info664(x)) => json!({"kind": "info664", "own": [], "their": [], "count": -1, "addrs": [], "info": partial(x.parse())}),
+        Some(p::Response::Info6Ex(x)) => json!({"kind": "info6ex", "own": [], "their": [], "count": -1, "addrs": [], "info": partial(x.parse())}),
+        Some(p::Response::Info6ExMore(x)) => json!({"kind": "info6exmore", "own": [], "their": [], "count": -1, "addrs": [], "info": partial(x.parse())}),
+    })
+}
+
+/// first field in which the real value differs from the value of the grammar (None: equal)
+fn wire_diff(want: &Value, got: &Value) -> Option<String> {
+    if want["kind"] != got["kind"] {
+        return Some("kind".into());
+    }
+    if want["kind"] == "none" {
+        return None;
+    }
+    for f in ["own", "their", "count", "addrs"] {
+        if canon(&want[f]) != canon(&got[f]) {
+            return Some(f.into());
+        }
+    }
+    let (wi, gi) = (&want["info"], &got["info"]);
+    if gi.is_null() {
+        return None;
+    }
+    if wi["some"] != gi["some"] {
+        return Some("some".into());
+    }
+    if wi["some"] != true {
+        return None;
+    }
+    if gi["partial"] == true {
+        if wi["token"] != gi["token"] {
+            return Some("token".into());
+        }
+        if wi["complete"] != gi["complete"] {
+            return Some("complete".into());
+        }
+        if gi["take_same"] == false {
+            return Some("take_info".into());
+        }
+        if let Some(m) = gi["mask"].as_u64() {
+            let wm = wi["mask"].as_array().map(|a| a.iter().fold(0u64, |acc, b| acc | 1u64.checked_shl(b.as_u64().unwrap_or(99) as u32).unwrap_or(0))).unwrap_or(0);
+            if m != wm {
+                return Some("mask".into());
+            }
+        }
+    }
+    let full = &gi["full"];
+    if full.is_null() {
+        return None;
+    }
+    for f in ["ver", "token", "version", "name", "hostname", "map", "crc", "msize", "gametype", "flags", "prog", "skill", "np", "mp", "nc", "mc"] {
+        if canon(&wi[f]) != canon(&full[f]) {
+            return Some(f.into());
+        }
+    }
+    if canon(&wi["clients"]) != canon(&full["clients"]) {
+        return Some("clients".into());
+    }
+    None
+}
+
+fn wire_replay() {
+    let stdin = std::io::stdin();
+    let (mut cases, mut nontrivial, mut full_compared) = (0u64, 0u64, 0u64);
+    let mut fams: HashMap<String, u64> = HashMap::new();
+    let mut panics: HashMap<String, (u64, Value)> = HashMap::new();
+    let mut drift: HashMap<String, (u64, Value)> = HashMap::new();
+    let mut tlc_tail: Vec<String> = Vec::new();
+    let mut samples: Vec<Value> = Vec::new();
+    for line in stdin.lock().lines() {
+        let line = match line {
+            Ok(l) => l,
+            Err(_) => break,
+        };
+        let t = match parse_tlc_tuple(&line) {
+            Some(t) if t.len() == 3 && t[0] == "W" => t,
+            _ => {
+                if !line.starts_with("<<\"W\"") {
+                    if tlc_tail.len() >= 600 {
+                        tlc_tail.remove(0);
+                    }
+                    tlc_tail.push(line);
+                }
+                continue;
+            }
+        };
+        let (c, want): (Value, Value) = match (serde_json::from_str(&t[1]), serde_json::from_str(&t[2])) {
+            (Ok(a), Ok(b)) => (a, b),
+            _ => continue,
+        };
+        cases += 1;
+        let fam = c["fam"].as_str().unwrap_or("?").to_string();
+        *fams.entry(fam.split(':').next().unwrap_or("?").to_string()).or_insert(0) += 1;
+        let d: Vec<u8> = c["d"].as_array().map(|a| a.iter().map(|b| b.as_u64().unwrap_or(0) as u8).collect()).unwrap_or_default();
+        let hexd = vh_common::hex(&d);
+        set_case(&json!({"fam": fam, "hex": hexd}).to_string());
+        if want["kind"] != "none" {
+            nontrivial += 1;
+        }
+        match wire_value(&d) {
+            Err(msg) => {
+                let mut m = msg.clone();
+                m.truncate(40);
+                let key = format!("panic:wire:{}:{}", fam, m);
+                panics.entry(key).or_insert((0, json!({"replay": {"kind": "wire", "fam": fam, "hex": hexd}, "why": msg}))).0 += 1;
+            }
+            Ok(got) => {
+                if !got["info"]["full"].is_null() {
+                    full_compared += 1;
+                }
+                if let Some(f) = wire_diff(&want, &got) {
+                    drift.entry(format!("wire-value:{}:{}", fam, f)).or_insert((0, json!({"hex": hexd, "want": want, "got": got}))).0 += 1;
+                }
+                if samples.len() < 2 && want["info"]["some"] == true && want["info"]["clients"].as_array().map(|a| a.len() >= 2).unwrap_or(false) {
+                    samples.push(json!({"fam": fam, "bytes": d.len(), "result": got}));
+                }
+            }
+        }
+    }
+    let conv = |m: HashMap<String, (u64, Value)>| -> Value {
+        let mut v: Vec<(String, (u64, Value))> = m.into_iter().collect();
+        v.sort_by(|a, b| a.0.cmp(&b.0));
+        Value::Array(v.into_iter().map(|(k, (n, x))| json!({"key": k, "count": n, "first": x})).collect())
+    };
+    println!(
+        "{}",
+        json!({"summary": true, "cases": cases, "nontrivial": nontrivial, "full_compared": full_compared, "families": fams,
+               "panics": conv(panics), "drift": conv(drift), "samples": samples, "tlc_tail": tlc_tail})
+    );
+}
+
+// ---------------------------------------------------------------- token-level parsing (SrvInfoParse)
 
 fn info_header(k: &str) -> &'static [u8] {
     match k {
@@ -411,11 +760,9 @@ fn render_tokens(k: &str, toks: &[Value]) -> Vec<u8> {
             }
         } else if v >= 100 {
             push_str(&mut d, &format!("c{:03}", v - 100));
-        } else if k == "v7" {
-            // a "string" where a number is expected cannot be expressed in the 0.7 encoding (every
-            // byte sequence is a number); the case keeps a string there, which shifts the stream
-            push_str(&mut d, &format!("s{}", v));
         } else {
+            // (0.7: a "string" where a number is expected cannot be expressed - every byte sequence
+            // is a number; the case keeps a string there, which shifts the stream)
             push_str(&mut d, &format!("s{}", v));
         }
     }
@@ -512,6 +859,20 @@ fn render_resp(hk: &str, pre: &str, len: usize) -> Vec<u8> {
     d
 }
 
+fn touch_partial(x: Option<p::PartialServerInfo>) {
+    if let Some(mut pi) = x {
+        let _ = pi.token();
+        let _ = pi.get_info().map(|i| i.clients.len());
+        let mut c = pi.clone();
+        let _ = c.take_info();
+        let _ = c.take_info();
+        let _ = pi.merge(c);
+        let me = pi.clone();
+        let _ = pi.merge(me);
+        let _ = format!("{:?}", pi);
+    }
+}
+
 /// classify through the real parse_response and touch every accessor of the result
 fn run_resp(d: &[u8]) -> Result<Value, String> {
     catch(|| {
@@ -519,67 +880,57 @@ fn run_resp(d: &[u8]) -> Result<Value, String> {
             None => ("none", 0),
             Some(p::Response::List5(l)) => {
                 for a in l.0 {
-                    let _ = a.unpack();
+                    let _ = format!("{}", a.unpack());
                 }
                 ("list5", l.0.len())
             }
             Some(p::Response::List6(l)) => {
                 for a in l.0 {
-                    let _ = a.unpack();
+                    let _ = format!("{}", a.unpack());
                 }
                 ("list6", l.0.len())
             }
             Some(p::Response::List7(l)) => {
                 for a in l.2 {
-                    let _ = a.unpack();
+                    let _ = format!("{}", a.unpack());
                 }
+                let _ = format!("{} {}", l.0, l.1);
                 ("list7", l.2.len())
             }
             Some(p::Response::Count(_)) => ("count", 0),
             Some(p::Response::Count7(_)) => ("count7", 0),
             Some(p::Response::Info5(x)) => {
-                let _ = x.parse();
+                let _ = x.parse().map(|i| format!("{:?}", i));
                 ("info5", 0)
             }
             Some(p::Response::Info6(x)) => {
-                let _ = x.parse();
+                let _ = x.parse().map(|i| format!("{:?}", i));
                 ("info6", 0)
             }
             Some(p::Response::Info6Ddper(x)) => {
-                let _ = x.parse();
+                let _ = x.parse().map(|i| format!("{:?}", i));
                 ("info6ddper", 0)
             }
             Some(p::Response::Info664(x)) => {
-                let _ = x.parse();
+                touch_partial(x.parse());
                 ("info664", 0)
             }
             Some(p::Response::Info6Ex(x)) => {
-                let _ = x.parse();
+                touch_partial(x.parse());
                 ("info6ex", 0)
             }
             Some(p::Response::Info6ExMore(x)) => {
-                let _ = x.parse();
+                touch_partial(x.parse());
                 ("info6exmore", 0)
             }
             Some(p::Response::Info7(x)) => {
-                let _ = x.parse();
+                let _ = x.parse().map(|i| format!("{:?}", i));
                 ("info7", 0)
             }
             Some(p::Response::Token7(_)) => ("token7", 0),
         };
         json!({"kind": kind, "entries": entries})
     })
-}
-
-fn toks_shape(c: &Value) -> String {
-    // numeric fields of the token list, for a stable key
-    let v: Vec<String> = c["toks"]
-        .as_array()
-        .map(|a| a.iter().map(|t| if t["ty"] == "i" { t["v"].to_string() } else { "s".into() }).collect())
-        .unwrap_or_default();
-    let mut s = v.join(",");
-    s.truncate(60);
-    s
 }
 
 fn parse_replay() {
@@ -623,13 +974,12 @@ fn parse_replay() {
                     let mut m = msg.clone();
                     m.truncate(40);
                     let key = format!("panic:parse:{}:{}", k, m);
-                    let _ = toks_shape(&c);
                     panics.entry(key).or_insert((0, json!({"replay": {"kind": "parse", "case": c}, "why": msg, "hex": vh_common::hex(&d)}))).0 += 1;
                 }
                 Ok(got) => {
                     let wsome = want["some"].as_bool().unwrap_or(false);
                     // 0.7: a non-number token cannot be expressed, the stream is only shifted: skip the comparison
-                    let inexpressible = k == "v7" && toks.iter().enumerate().any(|(_, t)| t["ty"] == "s" && t["v"] == 0);
+                    let inexpressible = k == "v7" && toks.iter().any(|t| t["ty"] == "s" && t["v"] == 0);
                     if wsome {
                         nontrivial += 1;
                     }
@@ -690,27 +1040,85 @@ fn parse_replay() {
 
 // ---------------------------------------------------------------- direction B
 
-fn inst_664(sizes: &[usize]) -> Value {
-    let n: usize = sizes.iter().sum();
-    let mut parts = Vec::new();
-    let mut from = 1usize;
-    for s in sizes {
-        let cl: Vec<usize> = (from..from + s).collect();
-        parts.push(json!({"bits": cl.clone(), "cl": cl, "main": true}));
-        from += s;
-    }
-    json!({"v": "v664", "n": n, "parts": parts})
+fn part_664(srv: i64, tok: i64, n: usize, off: i64, cnt: usize, rec: &[i64]) -> Value {
+    let cl: Vec<i64> = (0..cnt as i64).map(|k| off + k + 1).collect();
+    let recs: Vec<i64> = cl.iter().map(|c| rec[((*c - 1).rem_euclid(70)) as usize]).collect();
+    json!({"srv": srv, "v": "v664", "tok": tok, "main": true, "n": n, "off": off, "cl": cl, "recs": recs})
 }
-fn inst_6ex(sizes: &[usize]) -> Value {
+fn part_ex(srv: i64, tok: i64, n: usize, pno: i64, cl: Vec<i64>, rec: &[i64]) -> Value {
+    let recs: Vec<i64> = cl.iter().map(|c| rec[((*c - 1).rem_euclid(70)) as usize]).collect();
+    json!({"srv": srv, "v": "v6ex", "tok": tok, "main": pno == 0, "n": if pno == 0 { n } else { 0 }, "off": pno, "cl": cl, "recs": recs})
+}
+fn parts_664(srv: i64, tok: i64, sizes: &[usize], rec: &[i64]) -> Vec<Value> {
     let n: usize = sizes.iter().sum();
-    let mut parts = Vec::new();
-    let mut from = 1usize;
-    for (k, s) in sizes.iter().enumerate() {
-        let cl: Vec<usize> = (from..from + s).collect();
-        parts.push(json!({"bits": [k + 1], "cl": cl, "main": k == 0}));
+    let mut from = 0usize;
+    let mut out = Vec::new();
+    for s in sizes {
+        out.push(part_664(srv, tok, n, from.min(63) as i64, *s, rec));
         from += s;
     }
-    json!({"v": "v6ex", "n": n, "parts": parts})
+    out
+}
+fn parts_ex(srv: i64, tok: i64, sizes: &[usize], first_id: i64, rec: &[i64]) -> Vec<Value> {
+    let n: usize = sizes.iter().sum();
+    let mut from = first_id;
+    let mut out = Vec::new();
+    for (k, s) in sizes.iter().enumerate() {
+        out.push(part_ex(srv, tok, n, k as i64, (from..from + *s as i64).collect(), rec));
+        from += *s as i64;
+    }
+    out
+}
+
+/// split `total` clients into parts so that every rendered datagram is as full as the 1400-byte
+/// limit allows (ex: extended format; the first part is the main packet)
+fn fill_sizes(total: usize, ex: bool, style: Style, rec: &[i64]) -> Vec<usize> {
+    let mut sizes = Vec::new();
+    let mut done = 0usize;
+    while done < total || sizes.is_empty() {
+        let mut s = 0usize;
+        loop {
+            if done + s >= total {
+                break;
+            }
+            let cand = if ex {
+                part_ex(1, 7, total, sizes.len() as i64, (done as i64 + 1..=(done + s + 1) as i64).collect(), rec)
+            } else {
+                part_664(1, 7, total, done as i64, s + 1, rec)
+            };
+            if render_part(&cand, style).len() > 1400 {
+                break;
+            }
+            s += 1;
+        }
+        sizes.push(s);
+        done += s;
+        if s == 0 {
+            break;
+        }
+    }
+    sizes
+}
+
+fn random_sizes(rng: &mut StdRng, total: usize, ex: bool, maxpart: usize) -> Vec<usize> {
+    let mut sizes = vec![];
+    let mut left = total;
+    if ex {
+        let s = rng.gen_range(0..10.min(left + 1));
+        sizes.push(s);
+        left -= s;
+    }
+    while left > 0 && sizes.len() < 63 {
+        let lo = if ex { 1 } else { 0 };
+        let s = rng.gen_range(lo..=maxpart.min(left));
+        sizes.push(s);
+        left -= s;
+    }
+    if left > 0 {
+        let l = sizes.len();
+        sizes[l - 1] += left;
+    }
+    sizes
 }
 
 fn drive(args: &[String]) {
@@ -721,41 +1129,62 @@ fn drive(args: &[String]) {
     let path = format!("{}-merge.ndjson", prefix);
     let mut w = std::io::BufWriter::new(std::fs::File::create(&path).unwrap());
     let (mut runs, mut events) = (0u64, 0u64);
-    let nruns = if thorough { 400 } else { 40 };
+    let nruns = if thorough { 480 } else { 48 };
+    let mut maxlen = 0usize;
     for r in 0..nruns {
-        // real-size instances: 64 clients; legacy 3 x 24/24/16 or finer; extended up to 64 packets
-        let inst = match r % 4 {
-            0 => inst_664(&[24, 24, 16]),
+        let style = STYLES[rng.gen_range(0..4)];
+        // records: all different, or a server full of equal records (1, 2 or 3 distinct ones)
+        let rec: Vec<i64> = match rng.gen_range(0..3) {
+            0 => {
+                let k = rng.gen_range(1..=3);
+                let base: Vec<i64> = (0..k).map(|_| rng.gen_range(1..=64)).collect();
+                (0..70).map(|c| base[c % k]).collect()
+            }
+            _ => (0..70).map(|c| (c % 64) as i64 + 1).collect(),
+        };
+        // real-size instances: 64 clients; legacy 24/24/16, random finer splits, datagrams filled up to
+        // 1400 bytes; extended with the maximum number of packets, random splits, filled datagrams;
+        // a second server / malformed parts mixed in
+        let mut parts: Vec<Value> = match r % 8 {
+            0 => parts_664(1, 7, &[24, 24, 16], &rec),
+            1 => parts_664(1, 7, &random_sizes(&mut rng, 64, false, 24), &rec),
+            2 => parts_ex(1, 7, &vec![1; 64], 1, &rec),
+            3 => parts_ex(1, 7, &random_sizes(&mut rng, 64, true, 12), 1, &rec),
+            4 => parts_664(1, 7, &fill_sizes(64, false, style, &rec), &rec),
+            5 => parts_ex(1, 7, &fill_sizes(64, true, style, &rec), 1, &rec),
+            6 => parts_664(1, 7, &random_sizes(&mut rng, 64, false, 30), &rec),
+            _ => parts_ex(1, 7, &random_sizes(&mut rng, 64, true, 30), 1, &rec),
+        };
+        match rng.gen_range(0..6) {
+            // parts of another request: other token, other version, or indistinguishable
+            0 => parts.extend(parts_ex(2, 9, &[2, 3, 2], 1, &rec)),
             1 => {
-                let mut sizes = vec![];
-                let mut left = 64usize;
-                while left > 0 {
-                    let s = rng.gen_range(0..=24.min(left));
-                    sizes.push(s);
-                    left -= s;
-                }
-                inst_664(&sizes)
+                let other = if parts[0]["v"] == "v664" { parts_ex(2, 7, &[2, 3], 1, &rec) } else { parts_664(2, 7, &[3, 2], &rec) };
+                parts.extend(other)
             }
             2 => {
-                // the maximum number of parts: main + 63 "more" packets, one client each (main: 1)
-                inst_6ex(&vec![1; 64])
-            }
-            _ => {
-                let mut sizes = vec![rng.gen_range(0..10)];
-                let mut left = 64usize - sizes[0];
-                while left > 0 && sizes.len() < 64 {
-                    let s = rng.gen_range(1..=12.min(left));
-                    sizes.push(s);
-                    left -= s;
+                // malformed parts of the same server: overlapping / out-of-range slots, repeated or
+                // out-of-range packet numbers
+                if parts[0]["v"] == "v664" {
+                    let off = rng.gen_range(0..70);
+                    parts.push(part_664(1, 7, 64, off, rng.gen_range(0..6), &rec));
+                } else {
+                    let pno = *[1i64, 2, 63, 64, 0].choose(&mut rng).unwrap();
+                    parts.push(part_ex(1, 7, 64, pno.max(0), vec![rng.gen_range(1..=64)], &rec));
+                    if pno == 0 {
+                        let l = parts.len();
+                        parts[l - 1]["main"] = json!(false);
+                        parts[l - 1]["n"] = json!(0);
+                    }
                 }
-                if left > 0 {
-                    let l = sizes.len();
-                    sizes[l - 1] += left;
-                }
-                inst_6ex(&sizes)
             }
-        };
-        let np = inst["parts"].as_array().unwrap().len();
+            _ => {}
+        }
+        let np = parts.len();
+        for k in 0..np {
+            maxlen = maxlen.max(render_part(&parts[k], style).len());
+        }
+        let inst = json!({"parts": parts, "rec": rec, "style": style_name(style)});
         writeln!(w, "{}", json!({"t": "I", "inst": inst})).unwrap();
         events += 1;
         runs += 1;
@@ -768,55 +1197,72 @@ fn drive(args: &[String]) {
             let at = rng.gen_range(0..=order.len());
             order.insert(at, x);
         }
-        let mut pool: Vec<p::PartialServerInfo> = Vec::new();
+        let mut pools = Pools::default();
+        let mut alive = true;
+        let mut emit_merge = |w: &mut std::io::BufWriter<std::fs::File>, pools: &mut Pools, i: usize, j: usize, events: &mut u64| -> bool {
+            let act = json!({"a": "merge", "i": i, "j": j});
+            *events += 1;
+            match apply(&inst, pools, &act, style) {
+                Ok(a) => {
+                    writeln!(w, "{}", json!({"t": "M", "i": i, "j": j, "res": a.res, "obs": a.obs, "obsq": a.obsq, "same": a.same})).unwrap();
+                    true
+                }
+                Err(_) => {
+                    writeln!(w, "{}", json!({"t": "M", "i": i, "j": j, "res": "panic", "obs": obs_none(), "obsq": obs_none(), "same": true})).unwrap();
+                    false
+                }
+            }
+        };
         for pidx in order {
+            if !alive {
+                break;
+            }
             let act = json!({"a": "parse", "p": pidx});
             set_case(&json!({"inst": inst, "act": act}).to_string());
-            match apply(&inst, &mut pool, &act) {
+            events += 1;
+            match apply(&inst, &mut pools, &act, style) {
                 Ok(a) => writeln!(w, "{}", json!({"t": "P", "p": pidx, "res": a.res})).unwrap(),
                 Err(_) => {
                     writeln!(w, "{}", json!({"t": "P", "p": pidx, "res": "panic"})).unwrap();
                     break;
                 }
             }
-            events += 1;
             // merge eagerly most of the time; sometimes keep a side partial and merge partials later
-            while pool.len() > 1 && (pool.len() > 3 || rng.gen_range(0..4) != 0) {
-                let (i, j) = if rng.gen_range(0..5) == 0 && pool.len() > 2 {
-                    (rng.gen_range(1..=pool.len()), 0)
-                } else {
-                    (1, pool.len())
-                };
-                let j = if j == 0 {
-                    let mut j = rng.gen_range(1..=pool.len());
+            while alive && pools.a.len() > 1 && (pools.a.len() > 3 || rng.gen_range(0..4) != 0) {
+                let (i, j) = if rng.gen_range(0..5) == 0 && pools.a.len() > 2 {
+                    let i = rng.gen_range(1..=pools.a.len());
+                    let mut j = rng.gen_range(1..=pools.a.len());
                     while j == i {
-                        j = rng.gen_range(1..=pool.len());
+                        j = rng.gen_range(1..=pools.a.len());
                     }
-                    j
+                    (i, j)
                 } else {
-                    j
+                    (1, pools.a.len())
                 };
-                let act = json!({"a": "merge", "i": i, "j": j});
-                match apply(&inst, &mut pool, &act) {
-                    Ok(a) => writeln!(w, "{}", json!({"t": "M", "i": i, "j": j, "res": a.res, "obs": a.obs})).unwrap(),
+                alive = emit_merge(&mut w, &mut pools, i, j, &mut events);
+            }
+            // the application polls take_info now and then
+            if alive && !pools.a.is_empty() && rng.gen_range(0..24) == 0 {
+                let i = rng.gen_range(1..=pools.a.len());
+                events += 1;
+                match apply(&inst, &mut pools, &json!({"a": "take", "i": i}), style) {
+                    Ok(a) => writeln!(w, "{}", json!({"t": "K", "i": i, "obs": a.obs})).unwrap(),
                     Err(_) => {
-                        writeln!(w, "{}", json!({"t": "M", "i": i, "j": j, "res": "panic", "obs": {"complete": false, "clients": []}})).unwrap();
-                        pool.clear();
+                        writeln!(w, "{}", json!({"t": "K", "i": i, "obs": {"complete": false, "clients": [], "srv": -9, "n": 0}})).unwrap();
+                        alive = false;
                     }
                 }
-                events += 1;
             }
         }
-        while pool.len() > 1 {
-            let act = json!({"a": "merge", "i": 1, "j": 2});
-            match apply(&inst, &mut pool, &act) {
-                Ok(a) => writeln!(w, "{}", json!({"t": "M", "i": 1, "j": 2, "res": a.res, "obs": a.obs})).unwrap(),
-                Err(_) => {
-                    writeln!(w, "{}", json!({"t": "M", "i": 1, "j": 2, "res": "panic", "obs": {"complete": false, "clients": []}})).unwrap();
-                    pool.clear();
-                }
-            }
+        while alive && pools.a.len() > 1 {
+            alive = emit_merge(&mut w, &mut pools, 1, 2, &mut events);
+        }
+        if alive && !pools.a.is_empty() {
             events += 1;
+            match apply(&inst, &mut pools, &json!({"a": "take", "i": 1}), style) {
+                Ok(a) => writeln!(w, "{}", json!({"t": "K", "i": 1, "obs": a.obs})).unwrap(),
+                Err(_) => writeln!(w, "{}", json!({"t": "K", "i": 1, "obs": {"complete": false, "clients": [], "srv": -9, "n": 0}})).unwrap(),
+            }
         }
     }
     w.flush().unwrap();
@@ -827,15 +1273,43 @@ fn drive(args: &[String]) {
     let kinds = ["list5", "list6", "list7", "count", "count7", "info5", "info6", "info6ddper", "info664", "info6ex", "info6exmore", "info7", "token7"];
     let nd = if thorough { 60000 } else { 6000 };
     let mut ev2 = 0u64;
-    let valid664 = render_part(&inst_664(&[24, 24, 16]), 2);
-    let validex = render_part(&inst_6ex(&[3, 3, 3]), 1);
-    let validmore = render_part(&inst_6ex(&[3, 3, 3]), 2);
+    let idrec: Vec<i64> = (0..70).map(|c| (c % 64) as i64 + 1).collect();
+    let valid664 = render_part(&parts_664(1, 7, &[24, 24, 16], &idrec)[1], Style::Long);
+    let validex = render_part(&parts_ex(1, 7, &[3, 3, 3], 1, &idrec)[0], Style::Utf8);
+    let validmore = render_part(&parts_ex(1, 7, &[3, 3, 3], 1, &idrec)[1], Style::Over);
     for n in 0..nd {
         let hk = kinds[n % kinds.len()];
         let mut d = resp_header(hk);
-        match rng.gen_range(0..4) {
+        let hl = d.len();
+        // the bytes of the header that carry tokens / are ignored take arbitrary values
+        match hk {
+            "list7" | "count7" | "info7" => {
+                for b in &mut d[1..9] {
+                    *b = rng.gen();
+                }
+            }
+            "token7" => {
+                for b in &mut d[3..7] {
+                    *b = rng.gen();
+                }
+            }
+            "info6ddper" => {
+                for b in &mut d[2..6] {
+                    *b = rng.gen();
+                }
+            }
+            _ => {
+                if rng.gen_range(0..3) == 0 {
+                    for b in &mut d[0..6] {
+                        *b = rng.gen();
+                    }
+                    d[0] |= 0x40;
+                }
+            }
+        }
+        match rng.gen_range(0..5) {
             0 => {
-                let l = rng.gen_range(0..200);
+                let l = if rng.gen_range(0..10) == 0 { rng.gen_range(1300..1400) } else { rng.gen_range(0..200) };
                 for _ in 0..l {
                     d.push(rng.gen());
                 }
@@ -844,18 +1318,30 @@ fn drive(args: &[String]) {
                 // number-ish tokens
                 let l = rng.gen_range(0..40);
                 for _ in 0..l {
-                    let v: i64 = match rng.gen_range(0..6) {
+                    let v: i64 = match rng.gen_range(0..7) {
                         0 => -1,
                         1 => 64,
                         2 => 65,
                         3 => rng.gen_range(0..70),
                         4 => i32::MAX as i64,
+                        5 => i32::MIN as i64,
                         _ => rng.gen_range(-3..20),
                     };
                     if rng.gen_range(0..8) == 0 {
                         push_str(&mut d, "x");
                     } else {
                         push_int(&mut d, v);
+                    }
+                }
+            }
+            2 => {
+                // 0.7-style: short strings and variable-length integers
+                let l = rng.gen_range(0..40);
+                for _ in 0..l {
+                    if rng.gen_range(0..3) == 0 {
+                        push_str(&mut d, ["a", "", "verylongstringverylongstringverylongstring", "\u{e4}"][rng.gen_range(0..4)]);
+                    } else {
+                        put_varint(&mut d, [0, 1, -1, 63, 64, 65, 16, 17, i32::MAX, i32::MIN][rng.gen_range(0..10)]);
                     }
                 }
             }
@@ -868,7 +1354,7 @@ fn drive(args: &[String]) {
                 };
                 d.extend_from_slice(&base[14..]);
                 for _ in 0..rng.gen_range(1..4) {
-                    let at = rng.gen_range(resp_header(hk).len().min(d.len() - 1)..d.len());
+                    let at = rng.gen_range(hl.min(d.len() - 1)..d.len());
                     match rng.gen_range(0..3) {
                         0 => d[at] = rng.gen(),
                         1 => {
@@ -898,8 +1384,9 @@ fn drive(args: &[String]) {
     w2.flush().unwrap();
     println!(
         "{}",
-        json!({"summary": true, "files": [{"path": path, "kind": "merge", "runs": runs, "events": events},
-                                            {"path": path2, "kind": "total", "runs": nd, "events": ev2}]})
+        json!({"summary": true, "max_datagram": maxlen,
+               "files": [{"path": path, "kind": "merge", "runs": runs, "events": events},
+                         {"path": path2, "kind": "total", "runs": nd, "events": ev2}]})
     );
 }
 
@@ -909,7 +1396,7 @@ fn case(args: &[String]) {
     let c = if c.get("replay").is_some() { c["replay"].clone() } else { c };
     if let Some(h) = c.get("hex").and_then(|h| h.as_str()) {
         let d = vh_common::unhex(h);
-        let r = run_resp(&d);
+        let r = run_resp(&d).and_then(|_| wire_value(&d));
         println!("{}", json!({"result": match r { Ok(v) => v, Err(m) => json!({"panic": m}) }}));
         return;
     }
@@ -924,19 +1411,37 @@ fn case(args: &[String]) {
         println!("{}", json!({"result": match r { Ok(v) => v, Err(m) => json!({"panic": m}) }}));
         return;
     }
-    // merge case: rebuild the `from` pool from the `got` sets (each partial = its parts merged in order), then act
+    // merge case: re-execute the history on fresh pools and print it as a trace
     let from = &c["from"];
     let inst = &from["inst"];
-    let mut pool: Vec<p::PartialServerInfo> = Vec::new();
+    let style = style_of(if from.get("style").is_some() { &from["style"] } else { &inst["style"] });
+    let mut pools = Pools::default();
     let mut out = Vec::new();
-    writeln!(&mut out, "{}", json!({"t": "I", "inst": inst})).unwrap();
+    let mut i2 = inst.clone();
+    if i2.get("rec").is_none() {
+        i2["rec"] = json!((0..70).map(|c| (c % 64) as i64 + 1).collect::<Vec<i64>>());
+        // the export carries the records per part: rebuild the client -> record map from them
+        if let Some(parts) = inst["parts"].as_array() {
+            for pt in parts {
+                for (c, r) in ids(&pt["cl"]).iter().zip(ids(&pt["recs"]).iter()) {
+                    if *c >= 1 && *c <= 70 {
+                        i2["rec"][(*c - 1) as usize] = json!(*r);
+                    }
+                }
+            }
+        }
+    }
+    writeln!(&mut out, "{}", json!({"t": "I", "inst": i2})).unwrap();
     if let Some(hist) = c.get("history").and_then(|h| h.as_array()) {
         for a in hist {
-            let r = apply(inst, &mut pool, a);
+            let r = apply(inst, &mut pools, a, style);
             match (a["a"].as_str(), r) {
                 (Some("parse"), Ok(x)) => writeln!(&mut out, "{}", json!({"t": "P", "p": a["p"], "res": x.res})).unwrap(),
-                (Some("merge"), Ok(x)) => writeln!(&mut out, "{}", json!({"t": "M", "i": a["i"], "j": a["j"], "res": x.res, "obs": x.obs})).unwrap(),
-                (_, Err(_)) => writeln!(&mut out, "{}", json!({"t": "M", "i": a["i"], "j": a["j"], "res": "panic", "obs": {"complete": false, "clients": []}})).unwrap(),
+                (Some("merge"), Ok(x)) => writeln!(&mut out, "{}", json!({"t": "M", "i": a["i"], "j": a["j"], "res": x.res, "obs": x.obs, "obsq": x.obsq, "same": x.same})).unwrap(),
+                (Some("take"), Ok(x)) => writeln!(&mut out, "{}", json!({"t": "K", "i": a["i"], "obs": x.obs})).unwrap(),
+                (Some("parse"), Err(_)) => writeln!(&mut out, "{}", json!({"t": "P", "p": a["p"], "res": "panic"})).unwrap(),
+                (Some("take"), Err(_)) => writeln!(&mut out, "{}", json!({"t": "K", "i": a["i"], "obs": {"complete": false, "clients": [], "srv": -9, "n": 0}})).unwrap(),
+                (_, Err(_)) => writeln!(&mut out, "{}", json!({"t": "M", "i": a["i"], "j": a["j"], "res": "panic", "obs": obs_none(), "obsq": obs_none(), "same": true})).unwrap(),
                 _ => {}
             }
         }
@@ -951,11 +1456,12 @@ fn main() {
     let args: Vec<String> = std::env::args().collect();
     match args.get(1).map(|s| s.as_str()) {
         Some("merge") => merge_replay(),
+        Some("wire") => wire_replay(),
         Some("parse") => parse_replay(),
         Some("drive") => drive(&args[2..]),
         Some("case") => case(&args[2..]),
         _ => {
-            eprintln!("usage: vh-srvinfo merge|parse|drive|case");
+            eprintln!("usage: vh-srvinfo merge|wire|parse|drive|case");
             std::process::exit(2);
         }
     }
